@@ -22,7 +22,7 @@ META = {
     "numerical-Jacobian twin + distance edges: same optimum as the analytic graph (1e-5) and the C05 oracles (independent Newton decrement, ground truth). "
     "non-trivial = Jacobian with an entry outside {0,+-1}",
     "assumptions": ["forward-difference accuracy bound: 1e-5 x (1 + lever arms) x (1 + 1/distance for distance-like programs) + 1e-8 |e| + 1e-8 |coordinates| (rounding); every configuration is also evaluated shifted by (5000,-3000,2000) and after moving vertex 0", "finite program family and alphabets; optimisation inside the C05 radii"],
-    "required_classes": ["prog:distance", "prog:range", "prog:relpose", "prog:prior", "prog:landmark", "prog:midpoint", "prog:spacing", "prog:scaled", "prog:finestep", "arity:1", "arity:2", "arity:3", "far_cluster", "moved_then_requested_again", "kind:SE3", "kind:SE2", "opt:numeric_twin", "opt:distance_edges"],
+    "required_classes": ["prog:distance", "prog:range", "prog:relpose", "prog:prior", "prog:landmark", "prog:midpoint", "prog:spacing", "prog:scaled", "prog:finestep", "arity:1", "arity:2", "arity:3", "far_cluster", "moved_then_requested_again", "kind:SE3", "kind:SE2", "opt:ternary_edges", "opt:numeric_twin", "opt:distance_edges"],
     "bounds": {"quick": "quick pose alphabets (pairs), 8-pose thinned alphabet (triples); SLAM n in {3,6}", "thorough": "thorough alphabets thinned to 60 poses (pairs), 12 (triples); SLAM n in {3,6,12}"},
 }
 
@@ -189,6 +189,8 @@ def run_chunk(chunk, tier, seed):
                     for extra in (False, True):
                         for fx in ("first", "last_pose"):
                             _do(acc, {"t": "opt", "kind": kind, "fam": fam, "n": n, "pert": pert, "noise": noise, "rad": 1.0, "tol": tol, "seed": seed, "distance_edges": extra, "fix": fx})
+                        if n >= 6:
+                            _do(acc, {"t": "opt", "kind": kind, "fam": fam, "n": n, "pert": pert, "noise": noise, "rad": 1.0, "tol": tol, "seed": seed, "distance_edges": False, "fix": "first", "ternary_edges": True})
     return acc
 
 
@@ -330,6 +332,12 @@ def _eval_jac(case):
     # history: the vertex moves (as during optimisation), the Jacobians are requested again
     if not msgs and not case.get("far"):
         v0 = verts[0]
+        with np.errstate(all="ignore"):
+            try:
+                e.information = np.eye(len(e0))
+                e.calc_chi2_gradient_hessian()  # the edge was linearised (as optimize() does) at the OLD poses
+            except Exception as ex:
+                msgs.append("calc_chi2_gradient_hessian raised %s" % type(ex).__name__)
         c0 = I.comps(v0.pose)
         for a in range(G.DIM[kinds[0]]):
             c0[a] += (0.37, -0.21, 0.11)[a]
@@ -383,6 +391,14 @@ def _eval_opt(case):
             a, b = tr[i][2], tr[i + 1][2]
             d = math.sqrt(sum((x - y) ** 2 for x, y in zip(a[: G.DIM[case["kind"]]], b[: G.DIM[case["kind"]]])))
             extra.append((i, i + 1, d))
+    if case.get("ternary_edges"):
+        classes.append("opt:ternary_edges")
+        # 3-vertex constraints (x_i + x_{i+2} - 2 x_{i+1} in the plane) listed as [i, i+2, i+1], consistent with ground truth
+        tr = {t[0]: t for t in truth}
+        for i in range(0, case["n"] - 2, 2):
+            z = [tr[i][2][k] + tr[i + 2][2][k] - 2.0 * tr[i + 1][2][k] for k in range(2)]
+            for sp, ty in ((spec_a, "tern"), (spec_n, "numtern")):
+                sp["edges"].append({"type": ty, "ids": [i, i + 2, i + 1], "z": z, "om": [[3.0, 0.5], [0.5, 2.0]]})
     results = []
     for spec, numeric in ((spec_a, False), (spec_n, True)):
         g, verts, edges = GB.build(spec, with_graph=False)
